@@ -43,6 +43,7 @@ type Scenario struct {
 	Ord     int    `json:"ord"`
 	Act     string `json:"act"` // crash-before | crash-after | torn
 	TornN   int    `json:"torn_n"`
+	TornRel int    `json:"torn_rel"`
 	Phase   string `json:"phase"` // before-storeinfo | storeinfo-to-flip | in-flip | after-flip
 }
 
@@ -100,6 +101,7 @@ func victim(args []string) int {
 	} else {
 		plan = deco.NewPlan(s.Label, s.Ord, deco.Action(s.Act))
 		plan.TornN = s.TornN
+		plan.TornRel = s.TornRel
 	}
 	deco.Install(plan)
 	plan.Arm()
@@ -404,6 +406,14 @@ func Plan(r *report.Run, logDir string, shapes []string, torn bool) []Scenario {
 			}
 			s.Label, s.Ord, s.Act = l, counts[l], string(deco.CrashBefore)
 			out = append(out, s)
+			if l == "dio.WriteAt" {
+				// tears that end INSIDE the handle record this write changes (relative to its first changed byte)
+				for _, rel := range []int{20, 40} {
+					s3 := s
+					s3.Act, s3.TornRel = string(deco.Torn), rel
+					out = append(out, s3)
+				}
+			}
 			if l == "dio.WriteAt" && (torn || s.Phase == "in-flip") {
 				tn := []int{62, 2048}
 				if torn {
